@@ -1,4 +1,5 @@
 import TF.Proofs.PolyInterp
+import TF.Proofs.PolyInterpBary
 /-!
 # C08 — interpolation, bulk evaluation, zerofiers and coset extrapolation are exact
 
@@ -267,6 +268,28 @@ theorem fast_modular_coset_interpolate_spec_partial (t : Thr) (hT : 2 ≤ t.zf) 
     (fmciPreprocess_modulus root _ _ _ _ hpre).1 hoff hsmall ω hω hprim r h
 
 end
+
+/-- **`barycentric_evaluate`** = evaluation of the subgroup interpolant: for every codeword of length `n ≥ 1` on the
+    powers of a primitive `n`-th root `ω = root n` and every indeterminate outside the subgroup, the result is
+    `f(x)` for *the* polynomial `f` with `deg f < n`, `f(ω^i) = codeword[i]`. -/
+theorem barycentric_evaluate_spec (codeword : List K) (x : K) (ω : K) (hn : 0 < codeword.length)
+    (hω : root codeword.length = some ω) (hω1 : ω ^ codeword.length = 1)
+    (hprim : ((List.range codeword.length).map (fun i => ω ^ i)).Nodup)
+    (hx : x ∉ (List.range codeword.length).map (fun i => ω ^ i))
+    (f : K[X]) (hf : Interpolates ((List.range codeword.length).map (fun i => ω ^ i)) codeword f) :
+    barycentricEvaluate FK codeword x = some (f.eval x) :=
+  barycentricEvaluate_spec root codeword x ω hn hω hω1 hprim hx f hf
+example : ((-1 : ℚ)) ^ 2 = 1 ∧ (5 : ℚ) ∉ (List.range 2).map (fun i => (-1 : ℚ) ^ i) := by
+  constructor
+  · norm_num
+  · decide
+
+/-- the excluded indeterminates: inside the subgroup the code divides by zero (batch inversion of `x - ω^i`) and
+    panics. -/
+theorem barycentric_evaluate_panics_in_domain (codeword : List K) (x : K) (ω : K)
+    (hω : root codeword.length = some ω) (hx : x ∈ (List.range codeword.length).map (fun i => ω ^ i)) :
+    barycentricEvaluate FK codeword x = none :=
+  barycentricEvaluate_in_domain root codeword x ω hω hx
 
 /-- a primitive 4th root of unity in `ℚ(i)`-free form: the hypotheses on `ω` are satisfiable, e.g. `ω = -1`, `n = 2` -/
 example : ((List.range 2).map (fun i => (-1 : ℚ) ^ i)).Nodup := by decide
